@@ -813,3 +813,100 @@ Proof.
   injection Hc as Hc'. unfold view in Hc'. destruct (reg_get (s_reg st') q); cbn [f_content f_init] in Hc'; [exact Hc' | discriminate Hc'].
 Qed.
 End Canonical.
+
+(* ---- the fuel of the walk is enough: the seen-set strictly grows ---------------------------------------- *)
+Local Open Scope nat_scope.
+Section Fuel.
+Variable cfg : config.
+Variable U : universe.
+Notation export_recursive := (ExportSM.export_recursive cfg U).
+
+Lemma filter_length_le {A} (p q : A -> bool) l : (forall x, In x l -> q x = true -> p x = true) -> length (filter q l) <= length (filter p l).
+Proof.
+  induction l as [|x l IH]; intros H; [apply le_n|]. cbn [filter].
+  assert (IH' := IH (fun y Hy => H y (or_intror Hy))). destruct (q x) eqn:Eq.
+  - rewrite (H x (or_introl eq_refl) Eq). cbn [length]. lia.
+  - destruct (p x); cbn [length]; lia.
+Qed.
+Lemma filter_length_lt {A} (p q : A -> bool) l x : (forall y, In y l -> q y = true -> p y = true) -> In x l -> p x = true -> q x = false ->
+  length (filter q l) < length (filter p l).
+Proof.
+  induction l as [|y l IH]; intros H Hin Hp Hq; [contradiction|]. cbn [filter]. destruct Hin as [->|Hin].
+  - rewrite Hp, Hq. cbn [length]. pose proof (filter_length_le p q l (fun z Hz => H z (or_intror Hz))). lia.
+  - assert (IH' := IH (fun z Hz => H z (or_intror Hz)) Hin Hp Hq). destruct (q y) eqn:Eq.
+    + rewrite (H y (or_introl eq_refl) Eq). cbn [length]. lia.
+    + destruct (p y); cbn [length]; lia.
+Qed.
+
+Definition unseen (seen : list nat) : nat := length (filter (fun k => negb (existsb (Nat.eqb k) seen)) (seq 0 (length U))).
+
+Lemma existsb_eqb_in k l : existsb (Nat.eqb k) l = true <-> In k l.
+Proof.
+  rewrite existsb_exists. split; [intros (x & Hx & He); apply PeanoNat.Nat.eqb_eq in He; subst; exact Hx | intros H; exists k; split; [exact H | apply PeanoNat.Nat.eqb_refl]].
+Qed.
+Lemma unseen_mono s s' : incl s s' -> unseen s' <= unseen s.
+Proof.
+  intros H. apply filter_length_le. intros x _ Hx. apply negb_true_iff in Hx. apply negb_true_iff.
+  destruct (existsb (Nat.eqb x) s) eqn:E; [|reflexivity]. apply existsb_eqb_in in E. apply H in E. apply existsb_eqb_in in E. congruence.
+Qed.
+Lemma unseen_cons i s : i < length U -> ~ In i s -> unseen (i :: s) < unseen s.
+Proof.
+  intros Hi Hn. apply (filter_length_lt _ _ _ i).
+  - intros y _ Hy. apply negb_true_iff in Hy. apply negb_true_iff. cbn [existsb] in Hy. apply orb_false_iff in Hy as [_ Hy]. exact Hy.
+  - apply in_seq. lia.
+  - apply negb_true_iff. destruct (existsb (Nat.eqb i) s) eqn:E; [|reflexivity]. apply existsb_eqb_in in E. contradiction.
+  - apply negb_false_iff. cbn [existsb]. rewrite PeanoNat.Nat.eqb_refl. reflexivity.
+Qed.
+
+Lemma exportable_in_range i : t_out (tget U i) <> None -> i < length U.
+Proof.
+  intros H. destruct (PeanoNat.Nat.lt_ge_cases i (length U)) as [Hl|Hg]; [exact Hl|]. unfold tget in H. rewrite nth_overflow in H by exact Hg. contradiction H; reflexivity.
+Qed.
+
+Lemma walk_seen_mono dir : forall fuel st seen i st' seen' r, export_recursive fuel st seen i dir = (st', seen', r) -> incl seen seen'.
+Proof.
+  induction fuel as [|f IH]; intros st seen i st' seen' r H; [inversion H; apply incl_refl|].
+  rewrite export_recursive_S in H. destruct (existsb (Nat.eqb i) seen); [inversion H; apply incl_refl|].
+  destruct (ExportSM.export_into cfg U st i dir) as [st1 r1].
+  assert (Hfold : forall l acc, fold_left (walk_step cfg U f dir) l acc = (st', seen', r) -> incl (snd (fst acc)) seen').
+  { induction l as [|d l IHl]; intros acc Hf; cbn [fold_left] in Hf; [rewrite Hf; apply incl_refl|].
+    eapply incl_tran; [|exact (IHl _ Hf)]. destruct acc as [[s sn] r0]. cbn [walk_step fst snd]. destruct r0 as [u|e|m]; try apply incl_refl.
+    destruct (t_out (tget U d)); [|apply incl_refl]. destruct (export_recursive f s sn d dir) as [[s2 sn2] r2] eqn:E2. exact (IH _ _ _ _ _ _ E2). }
+  destruct r1 as [[]|e|m]; try (inversion H; subst; apply incl_tl, incl_refl).
+  intros x Hx. apply (Hfold _ _ H). right. exact Hx.
+Qed.
+
+(* with more unseen-node budget than nodes left, the amount of fuel cannot be observed *)
+Lemma walk_fuel_irrelevant dir : forall f1 f2 st seen i, unseen seen < f1 -> unseen seen < f2 ->
+  export_recursive f1 st seen i dir = export_recursive f2 st seen i dir.
+Proof.
+  induction f1 as [|f1 IH]; intros f2 st seen i H1 H2; [lia|]. destruct f2 as [|f2]; [lia|].
+  rewrite !export_recursive_S. destruct (existsb (Nat.eqb i) seen) eqn:Ex; [reflexivity|].
+  destruct (ExportSM.export_into cfg U st i dir) as [st1 r1] eqn:E. destruct r1 as [[]|e|m]; try reflexivity.
+  assert (Hi : i < length U).
+  { apply exportable_in_range. intros Hn. rewrite (export_into_not_exportable cfg U st i dir Hn) in E. inversion E. }
+  assert (Hni : ~ In i seen) by (intros Hin; apply existsb_eqb_in in Hin; congruence).
+  pose proof (unseen_cons i seen Hi Hni) as Hlt.
+  assert (Hfold : forall l acc, unseen (snd (fst acc)) < f1 -> unseen (snd (fst acc)) < f2 ->
+            fold_left (walk_step cfg U f1 dir) l acc = fold_left (walk_step cfg U f2 dir) l acc).
+  { induction l as [|d l IHl]; intros acc A1 A2; [reflexivity|]. cbn [fold_left].
+    assert (Hs : walk_step cfg U f1 dir acc d = walk_step cfg U f2 dir acc d).
+    { destruct acc as [[s sn] r0]. cbn [walk_step fst snd] in *. destruct r0; try reflexivity. destruct (t_out (tget U d)); [|reflexivity]. exact (IH f2 s sn d A1 A2). }
+    rewrite <- Hs. apply IHl; destruct acc as [[s sn] r0]; cbn [walk_step fst snd] in *; destruct r0; try assumption;
+      destruct (t_out (tget U d)); try assumption;
+      destruct (export_recursive f1 s sn d dir) as [[s2 sn2] r2] eqn:E2; cbn [fst snd];
+      pose proof (unseen_mono _ _ (walk_seen_mono dir _ _ _ _ _ _ _ E2)); lia. }
+  apply Hfold; cbn [fst snd]; lia.
+Qed.
+
+(* the model's fuel |U| + 1 is enough: any larger amount gives the same result, so the walk never stops for lack of fuel *)
+Theorem fuel_is_enough st i dir k :
+  export_recursive (S (length U) + k) st [] i dir = export_recursive (S (length U)) st [] i dir.
+Proof.
+  assert (Hu : unseen [] <= length U).
+  { unfold unseen. etransitivity; [apply (filter_length_le (fun _ => true)); reflexivity|].
+    assert (G : forall (l : list nat), length (filter (fun _ => true) l) = length l) by (induction l as [|x l IHl]; cbn [filter length]; [reflexivity | rewrite IHl; reflexivity]).
+    rewrite G, seq_length. apply le_n. }
+  apply walk_fuel_irrelevant; lia.
+Qed.
+End Fuel.
